@@ -261,6 +261,18 @@ class PipelineSim(WorldBase):
                     spec["shrunk"] = True
                 evs.append(["trace", spec])
                 tens.append(spec)
+            if ntens == 1 and nr >= 2 and tens[0]["fmt"] == "U" and tens[0]["wrows"] is None and not tens[0].get("upper") \
+                    and "btype" not in tens[0] and g.random() < 0.5:
+                # a second operand walked by the same loop: it is bound from the SAME trace file, but it is indexed
+                # by another subset of the loop ranks (A[M,K] and B[K,N] both read at rank K of one K-iter trace)
+                first = tens[0]
+                other = [r for r in order[:-1] if g.random() < 0.5]
+                if other != [r for r in first["tranks"][:-1]]:
+                    tr2 = other + [order[-1]]
+                    spec2 = dict(first, tensor="C", tranks=tr2, shape=[shape[r] for r in tr2], share=first["tensor"],
+                                 pbits={r: 32 for r in tr2})
+                    evs.append(["trace", spec2])
+                    tens.append(spec2)
             bindings = []
             for spec in tens:
                 b = {"tensor": spec["tensor"], "rank": order[-1], "type": spec.get("btype", "payload")}
@@ -398,6 +410,8 @@ class PipelineSim(WorldBase):
         for side, rows in (("read", spec["rows"]), ("write", spec.get("wrows"))):
             if rows is None:
                 continue
+            if spec.get("share"):
+                continue          # this tensor is bound from another tensor's trace file (one loop, two operands)
             with open(self.path(spec["tensor"], side), "w") as f:
                 f.write(head)
                 for r in rows:
@@ -467,7 +481,7 @@ class PipelineSim(WorldBase):
             if name not in self.traces:
                 continue
             key = "-".join([name, a["rank"], self.traces[name].get("btype", "payload")])
-            base = os.path.join(self.dir, f"{name}-read")
+            base = os.path.join(self.dir, f"{self.traces[name].get('share') or name}-read")
             for fn in (f"{base}-comb-{key}.csv", f"{base}-comb-{key}-next-{key}.csv"):
                 with open(fn, "w") as f:
                     f.write("garbage left by an aborted call\n1,2,3\n")
@@ -517,7 +531,7 @@ class PipelineSim(WorldBase):
                     spec = self.traces[name]
                     rank = spec["order"][-1]
                     bt = spec.get("btype", "payload")
-                    trace_fns[(name, rank, bt, "read")] = self.path(name, "read")
+                    trace_fns[(name, rank, bt, "read")] = self.path(spec.get("share") or name, "read")
                     if spec.get("wrows") is not None:
                         trace_fns[(name, rank, bt, "write")] = self.path(name, "write")
                     if spec.get("upper") and any(b["rank"] == spec["upper"]["rank"] for b in a["bindings"]):
